@@ -46,6 +46,10 @@ func runRegistry(ops []regOp) *registryCase {
 	c := &registryCase{Form: "registry", Ops: ops, Kinds: []string{}, Stable: []bool{}}
 	mtOf := func(t int, isJSON bool) lime.MediaType {
 		m := lime.MediaType{Type: "application", Subtype: fmt.Sprintf("vnd.verif.p%dr%dt%d", os.Getpid(), run, t)}
+		if t%2 == 1 {
+			// spelled with capitals: the registry and the decoder take a media type as it is written
+			m.Subtype = fmt.Sprintf("vnd.verifOrderStatus.P%dR%dT%d", os.Getpid(), run, t)
+		}
 		if isJSON {
 			m.Suffix = "json"
 		}
